@@ -14,6 +14,7 @@ SPEC = {
         "assertion), so missing / non-executable candidates are skipped and the last error is returned; (e) the "
         "tokeniser splits at ':' with piece = [..pos], rest = [pos+1..] of the same pos and never yields an empty "
         "piece; (f) the executable override and argv[0] share this routine (C06)."
+        " The has-a-slash test is recognised as any(b == b'/') or contains(&b'/') over the bytes of the command (closures taken from the call, not by number)."
     ),
     "not_decided": "split_path's tokenisation as a function of its input (value level; the repository's unit test samples it); kernel execve semantics.",
     "trusted_base": ["rustc MIR", "execve only returns on failure", "Iterator::position/any, slice indexing (std)", "mirlib provenance, dominance, SCC"],
